@@ -114,19 +114,36 @@ def cnt_depth(p, res):
             if isinstance(st, ast.AugAssign) and src_of(st.target) == cexpr:
                 n += 1
                 v = st.value
-                ok = isinstance(st.op, (ast.Add, ast.Sub)) and (p.try_const(f, v) == 1 or src_of(v) in ('1 if token.open else -1',))
-                if ok:
+
+                def unit(e):
+                    c = p.try_const(f, e)
+                    if c is not None and not isinstance(c, bool):
+                        return c in (1, -1)
+                    if isinstance(e, ast.IfExp):
+                        a, b = unit(e.body), unit(e.orelse)
+                        return None if a is None or b is None else (a and b)
+                    return None
+                u = unit(v)
+                if isinstance(st.op, (ast.Add, ast.Sub)) and u:
                     res.ok('%s: %s' % (f.short, src_of(st)))
+                elif u is None and isinstance(st.op, (ast.Add, ast.Sub)):
+                    res.undecided('%s: %s' % (f.short, src_of(st)), 'the step of depth counter %s is not a constant' % cexpr)
                 else:
                     res.bad(F('CNT-DEPTH', f, st, src_of(st), 'depth counter %s must change by exactly one' % cexpr))
             elif isinstance(st, ast.Assign) and any(src_of(t) == cexpr for t in st.targets):
                 n += 1
-                if p.try_const(f, st.value) == 0 and not isinstance(p.try_const(f, st.value), bool):
+                c = p.try_const(f, st.value)
+                if c == 0 and not isinstance(c, bool):
                     res.ok('%s: %s' % (f.short, src_of(st)))
-                elif fq == 'scanner_utils.eat_pair' and p.try_const(f, st.value) == 1:
+                elif fq == 'scanner_utils.eat_pair' and c == 1:
                     res.ok('%s: %s (opening character already consumed)' % (f.short, src_of(st)))
-                else:
+                elif c is not None:
                     res.bad(F('CNT-DEPTH', f, st, src_of(st), 'depth counter %s is overwritten instead of counted: nesting deeper than one level is lost' % cexpr))
+                elif isinstance(st.value, ast.BinOp) and isinstance(st.value.op, (ast.Add, ast.Sub)) and src_of(st.value.left) == cexpr \
+                        and p.try_const(f, st.value.right) == 1:
+                    res.ok('%s: %s' % (f.short, src_of(st)))
+                else:
+                    res.undecided('%s: %s' % (f.short, src_of(st)), 'depth counter %s is assigned a computed value: whether it still counts by one is not decided' % cexpr)
         if n == 0:
             res.undecided('%s: depth counter %s' % (f.short, cexpr), 'no counting statement found')
     # literal(): the closing brace test compares the running depth with the depth at entry
@@ -1152,15 +1169,9 @@ def dec_multivalue(p, res):
             res.bad(F('DEC-MULTIVALUE', f, f.node, 'get_multi_value(multiple=%r, data=%r) -> %r' % (multiple, data, got), 'expected %r' % want))
         else:
             res.ok('multiple=%r data=%r -> %r' % (multiple, sorted(data), want))
-    g = p.func('markup.format.html.push_attribute')
-    s = src_of(g.node)
-    for w in ('name = get_multi_value(name, attributes, attr.multiple) or name', 'name = attr_name(name, config)',
-              'prefix = get_multi_value(attr.name, value_prefix, attr.multiple) if value_prefix else None',
-              "attributes = config.options.get('markup.attributes')", "value_prefix = config.options.get('markup.valuePrefix')"):
-        if w in s:
-            res.ok('push_attribute: ' + w)
-        else:
-            res.bad(F('DEC-MULTIVALUE', g, g.node, w, 'attribute name / value-prefix mapping changed'))
+    from .tablecheck import check_table
+    check_table(p, res, 'DEC-MULTIVALUE', 'markup.format.html.push_attribute',
+                'the attribute name is mapped through markup.attributes (key* for repeated shorthands, else key, else unchanged) and the value prefix through markup.valuePrefix')
     m, node = p.module_const('config', 'SYNTAX_CONFIG')
     from .tab import _const_syntax
     _, _, syn = _const_syntax(p)
@@ -1171,4 +1182,4 @@ def dec_multivalue(p, res):
             res.bad(Finding('DEC-MULTIVALUE', m.relpath, 'config.SYNTAX_CONFIG', "SYNTAX_CONFIG[%r]['markup.attributes']" % k, 'must be %r, is %r' % (v, got), node.lineno))
         else:
             res.ok("SYNTAX_CONFIG[%r]['markup.attributes'] == %r" % (k, v))
-    res.require_floor(14)
+    res.require_floor(11)
